@@ -8,7 +8,11 @@ import (
 	"fmt"
 	"io"
 	"io/fs"
+	"net"
+	"net/http"
+	"os"
 	"strings"
+	"syscall"
 	"time"
 
 	vuego "github.com/titpetric/vuego"
@@ -584,6 +588,22 @@ type c12Writer struct {
 	got      []byte
 	log      []c12WLog
 	reported int // Writes that returned a non-nil error
+	fail     error // what a failing Write returns (nil: c12ErrInjected)
+}
+
+// c12ErrKinds are the identities a destination's failure has in practice: a hung-up client, a closed pipe or file, a
+// cancelled request, a full disk. The statement makes no exception for any of them.
+var c12ErrKinds = []error{
+	io.ErrClosedPipe, syscall.EPIPE, syscall.ECONNRESET, &net.OpError{Op: "write", Net: "tcp", Err: os.NewSyscallError("write", syscall.EPIPE)},
+	os.ErrClosed, context.Canceled, context.DeadlineExceeded, io.EOF, io.ErrUnexpectedEOF, io.ErrShortWrite, syscall.ENOSPC,
+	&fs.PathError{Op: "write", Path: "out.html", Err: syscall.EIO}, http.ErrHandlerTimeout, http.ErrAbortHandler,
+}
+
+func (w *c12Writer) failure() error {
+	if w.fail != nil {
+		return w.fail
+	}
+	return c12ErrInjected
 }
 
 func (w *c12Writer) Write(p []byte) (int, error) {
@@ -591,7 +611,7 @@ func (w *c12Writer) Write(p []byte) (int, error) {
 	if w.tripped && w.sticky {
 		w.log = append(w.log, c12WLog{off, len(p), 0, true})
 		w.reported++
-		return 0, c12ErrInjected
+		return 0, w.failure()
 	}
 	if w.next < len(w.sched) && off+len(p) > w.sched[w.next].At {
 		f := w.sched[w.next]
@@ -613,7 +633,7 @@ func (w *c12Writer) Write(p []byte) (int, error) {
 		w.tripped = true
 		w.reported++
 		w.log = append(w.log, c12WLog{off, len(p), n, true})
-		return n, c12ErrInjected
+		return n, w.failure()
 	}
 	w.got = append(w.got, p...)
 	w.log = append(w.log, c12WLog{off, len(p), len(p), false})
@@ -917,7 +937,7 @@ func (p *c12) exec(ctx core.Ctx, c c12Case) core.Obs {
 				o.Cell("observed/zero-length-writes-on-error")
 			}
 		default:
-			if errors.Is(res.err, c12ErrInjected) {
+			if errors.Is(res.err, w.failure()) {
 				o.Cell("writer-failure-reported/" + path + "/error-wraps-writer-error")
 			} else {
 				o.Cell("writer-failure-reported/" + path + "/other-error")
@@ -1028,7 +1048,7 @@ func (p *c12) exec(ctx core.Ctx, c c12Case) core.Obs {
 		}
 	}
 	injected := 0
-	for _, k := range offs {
+	for oi, k := range offs {
 		w := &c12Writer{sched: []c12Fail{{At: k, Accept: accept}}, sticky: sticky}
 		res := c12Do(c, "live", w)
 		o.Evals++
@@ -1040,10 +1060,18 @@ func (p *c12) exec(ctx core.Ctx, c c12Case) core.Obs {
 		judge("live", w, res, fmt.Sprintf("writer failing at offset %d of %d (%s)", k, L, c.WMode), wit)
 		// the same failing destination, this time one that also implements io.StringWriter
 		// (*os.File, *bufio.Writer, an http.ResponseWriter do): its failures count as well
-		ws := &c12Writer{sched: []c12Fail{{At: k, Accept: accept}}, sticky: sticky}
-		res = c12Do(c, "live", c12StringWriter{ws})
-		o.Evals++
-		judge("live", ws, res, fmt.Sprintf("writer (with WriteString) failing at offset %d of %d (%s)", k, L, c.WMode), wit)
+		// and whose failure is one of the errors real destinations give (rotating with the offset)
+		kinds := c12ErrKinds[(oi+len(path))%len(c12ErrKinds):][:1]
+		if oi == 0 {
+			kinds = c12ErrKinds // every identity at the first offset, one (rotating) at each of the others
+		}
+		for _, kind := range kinds {
+			ws := &c12Writer{sched: []c12Fail{{At: k, Accept: accept}}, sticky: sticky, fail: kind}
+			res = c12Do(c, "live", c12StringWriter{ws})
+			o.Evals++
+			o.Cell(fmt.Sprintf("writer-error-identity/%T/%s", kind, clip(kind.Error(), 40)))
+			judge("live", ws, res, fmt.Sprintf("writer (with WriteString) failing with %q at offset %d of %d (%s)", kind.Error(), k, L, c.WMode), wit)
+		}
 		if len(o.Viol) > 8 {
 			o.Viol = c12Dedup(o.Viol)
 		}
